@@ -976,6 +976,7 @@ func seqCase(c *Ctx, r *RNG, id string, cfg seqCfg) {
 				s.doList(c, pfx)
 			}
 			s.doUnload(c, bkt)
+			cfg.served = s.cfg.served // later choices (GC requests…) go to buckets that are still served
 			c.count("op.unload")
 			for _, pfx := range []string{"", fmt.Sprintf("%x", bkt>>4&15), fmt.Sprintf("%x", bkt&15)} {
 				s.doList(c, pfx)
